@@ -125,7 +125,6 @@ Lemma finish_local_durable st e fail out st' :
 Proof.
   unfold appendMessageEventFinishLocal.
   destruct (nil_b _ && negb _); [intro E; inversion E; subst; apply durable_nothing; reflexivity|].
-  destruct (existsb _ _); [intro E; inversion E; subst; apply durable_nothing; reflexivity|].
   set (events := map (finishFlushMessageEvent e) (openStatesForFinish (n_cache st) e) ++ [e]).
   pose proof (propose_events_durable st events fail (e_channel e) (finish_events_channel e _)) as P.
   assert (Hne : events <> []) by (unfold events; intro X; apply app_eq_nil in X; destruct X; discriminate).
@@ -172,8 +171,7 @@ Proof.
     apply durable_nothing; reflexivity. }
   destruct (bytes_eqb (e_etype ne) EventTypeStreamFinish); [apply finish_local_durable|].
   destruct (isMessageEventTerminalEvent (e_etype ne)).
-  - destruct (mergeTerminalPayload_panics (n_cache st) ne); [intro E; inversion E; subst; apply durable_nothing; reflexivity|].
-    apply (single_proposal_durable st (mergeTerminalPayload (n_cache st) ne) fail (e_channel ne)
+  - apply (single_proposal_durable st (mergeTerminalPayload (n_cache st) ne) fail (e_channel ne)
              (fun rs st1 => match last_result rs with
                             | Some r => (mkAppendOut ENone (Some r) [with_results [mergeTerminalPayload (n_cache st) ne] (Some rs)],
                                          set_cache st1 (markTerminalPersisted (n_cache st1) (mergeTerminalPayload (n_cache st) ne) r))
@@ -297,7 +295,7 @@ Proof.
   split; [apply open_states_after_resume|]. intros. apply open_states_after_authority_loss. assumption.
 Qed.
 
-(* when it does not fail closed (and the flush payloads can be built), the finish
+(* when it does not fail closed, the finish
    issues exactly one proposal: one flush close per open cached lane, in lane
    order, followed by the finish itself *)
 Lemma finish_proposal st e fail fin :
@@ -305,12 +303,11 @@ Lemma finish_proposal st e fail fin :
   bytes_eqb (e_etype fin) EventTypeStreamFinish = true ->
   slot_local (n_local st) (hash_slot_of st (e_channel fin) + 1) = true ->
   (nil_b (openStatesForFinish (n_cache st) fin) && negb (p_hassnap (e_payload fin))) = false ->
-  existsb (fun s => merge_panics (e_payload fin) (st_snap s)) (openStatesForFinish (n_cache st) fin) = false ->
   exists rs, ao_proposals (fst (appendMessageEventLocal st e fail))
              = [with_results (map (finishFlushMessageEvent fin) (openStatesForFinish (n_cache st) fin) ++ [fin]) rs].
 Proof.
-  intros Nm Fi Lo Op Pa. unfold appendMessageEventLocal. rewrite Nm, Lo. cbn [negb].
-  rewrite (finish_not_cache_only _ Fi), Fi. unfold appendMessageEventFinishLocal. rewrite Op, Pa.
+  intros Nm Fi Lo Op. unfold appendMessageEventLocal. rewrite Nm, Lo. cbn [negb].
+  rewrite (finish_not_cache_only _ Fi), Fi. unfold appendMessageEventFinishLocal. rewrite Op.
   destruct (propose_events st _ fail) as [[rs|] st1].
   - exists (Some rs). destruct (last_result rs); reflexivity.
   - exists None. reflexivity.
@@ -456,7 +453,6 @@ Proof.
   intros opens hs events E Ok Hnorm Hnodup Vc Hdec Hin Hsn Hc0 Gs Ga.
   unfold appendMessageEventFinishLocal in E. fold opens in E.
   destruct (nil_b opens && negb (p_hassnap (e_payload fin))); [inversion E; subst; discriminate|].
-  destruct (existsb _ opens); [inversion E; subst; discriminate|].
   fold events in E.
   pose proof (propose_events_durable st events false (e_channel fin) (finish_events_channel fin opens)) as P.
   assert (Hne : events <> []) by (unfold events; intro X; apply app_eq_nil in X; destruct X; discriminate).
